@@ -401,6 +401,13 @@ def _ph_atoms(p):
     return [a for a in p.atoms() if _mentions_ph(a)]
 
 
+def flat_enum_base(T):
+    """The sequence whose positions `enumidx` counts when iterating T."""
+    while isinstance(T, tuple) and T and T[0] in ("enum",):
+        T = T[1]
+    return T
+
+
 def lift_map(I, st, T, r):
     """The sequence whose arbitrary element is r, where r was computed from the arbitrary
     element of T (placeholders ('elem', X) / ('el', L, f))."""
@@ -415,7 +422,8 @@ def lift_map(I, st, T, r):
             if not _ph_atoms(d):
                 base = mk_gather(st, X[1], X[2]) if X[0] == "gather" else X
                 return mk_shift(d, base)
-        if len(at) == 1 and at[0][0] == "enumidx" and r.p == Poly.atom(at[0]):
+        if len(at) == 1 and at[0][0] == "enumidx" and r.p == Poly.atom(at[0]) and \
+                (at[0][1] == T or at[0][1] == flat_enum_base(T)):
             return mk_arange(0, t_len(T))
         if len(at) == 1 and at[0][0] == "get" and r.p == Poly.atom(at[0]) and not _mentions_ph(at[0][1]):
             # X[i] for the running index i of the enumeration: X re-indexed along 0..len(T)
@@ -706,6 +714,27 @@ def h_for_each(I, st, fr, e, c, a):
     seq = as_list(I, st, fr, e, recv)
     if seq.t == EMPTY:
         return [(st, UNIT, None)]
+    if closure_has_effects(I, f):
+        # a loop in disguise: summarise it like `for x in seq { f(x) }`
+        import loops
+        cfr = f.frame
+        roots = set(loops.modified_roots(I, [f.node["body"]], cfr))
+
+        def run_body(s, elem):
+            return [(s2, UNIT if ctl is None else r, ctl) for (s2, r, ctl) in I.apply_value(f, [elem], s, fr, e)]
+        r = append_loop(I, st, cfr, e, seq, None, None, roots, run_body)
+        if r is None:
+            r = fold_loop(I, st, cfr, e, seq, None, None, roots, run_body)
+        if r is not None:
+            return r
+
+        def body(s):
+            res = []
+            for (s1, elem) in iter_elements(I, s, fr, e, recv):
+                res.extend(run_body(s1, elem))
+            return res
+        head, exits, others = loops.run_loop(I, st, cfr, e, roots, body, "for_each", extra_values=[recv])
+        return [(head, UNIT, None)] + exits + others
     s2, r = apply_closure_once(I, st, fr, e, f, [seq_elem(I, st, seq, None)])
     return [(s2, UNIT, None)]
 
@@ -737,6 +766,11 @@ def filter_map_term(I, st, fr, e, seq, f):
 def _rename_poly(st, p, M):
     mapping = {}
     for at in p.atoms():
+        if isinstance(at, tuple) and at and at[0] == "enumidx":
+            # the ORIGINAL position of a selected element: an element of the selected sub-sequence of 0..len
+            new = ("elem", ("sel", mk_arange(0, t_len(at[1])), M))
+            mapping[at] = Poly.atom(new)
+            st.add_ge(t_len(at[1]) - Poly.atom(new) - 1)
         if isinstance(at, tuple) and at and at[0] == "elem":
             new = ("elem", ("sel", at[1], M))
             mapping[at] = Poly.atom(new)
